@@ -13,7 +13,7 @@ BOUNDS = {
              "pairs; positions symbolic, so the solver places spikes on the edges and on each other) and on 3 trains "
              "with 0..1 spikes each; keyword settings: defaults and (MRTS symbolic > 0, max_tau symbolic > 0, RI for SPIKE); "
              "whole recording and a symbolic sub-interval where the function accepts one; py and pyx",
-    "thorough": "2 trains with 0..3 spikes (n1+n2 <= 4), 3 trains with 0..2 spikes (sum <= 3), 4 trains with 0..1 spikes (sum <= 3); all keyword settings also with a sub-interval",
+    "thorough": "2 trains with 0..3 spikes (n1+n2 <= 4; keyword settings or a sub-interval up to 3 spikes in total, both together up to 2), 3 trains (<= 1 spike each, or <= 2 spikes in total), 4 trains with <= 2 spikes in total",
 }
 OUTSIDE = "larger inputs; plotting helpers; optimal_spike_train_sorting (needs the compiled extension)"
 ASSUMPTIONS = ["non-finite = result of a division whose denominator can be 0 on the path (poison) or nan/inf in floats",
@@ -40,9 +40,12 @@ def configs(tier):
     sizes = [ns for ns in itertools.product(range(3), repeat=2)]
     sizes += [ns for ns in itertools.product(range(2), repeat=3)]
     if not q:
+        # (the first thorough set - all keyword settings x sub-interval up to 4 spikes in total, 3 trains with
+        # 2 spikes, 4 trains - did not finish in a 25-minute trial on 10 cores; this is the trimmed set)
         sizes = [ns for ns in itertools.product(range(4), repeat=2) if sum(ns) <= 4]
-        sizes += [ns for ns in itertools.product(range(3), repeat=3) if sum(ns) <= 3]
-        sizes += [ns for ns in itertools.product(range(2), repeat=4) if sum(ns) <= 3]
+        sizes += [ns for ns in itertools.product(range(3), repeat=3) if sum(ns) <= 3 and max(ns) <= 1 or sum(ns) <= 2]
+        sizes += [ns for ns in itertools.product(range(2), repeat=4) if sum(ns) <= 2]
+        sizes = list(dict.fromkeys(sizes))
     for be in ("py", "pyx"):
         for (fn, iv, kk) in FUNCS:
             for ns in sizes:
@@ -53,6 +56,10 @@ def configs(tier):
                         if q and kwmode != "default" and ivm == "sub":
                             continue
                         if kwmode == "auto" and sum(ns) > 2:
+                            continue
+                        if not q and (kwmode != "default" or ivm == "sub") and sum(ns) > 3:
+                            continue
+                        if not q and kwmode != "default" and ivm == "sub" and sum(ns) > 2:
                             continue
                         if q and kwmode == "kw" and sum(ns) > 3:
                             continue
